@@ -116,6 +116,19 @@ def run_oracle(case):
                             % (op, v, seen[id(v)], eq), {'op_index': j}))
                 break
             seen[id(v)] = eq
+        # every state variable is a node of the dependency graph (whatever the order of the equations), and the id registry
+        # agrees with the ids the live variables carry (annotation edits are edits of the model too)
+        try:
+            g = im.model.graph
+            for sv in im.model.get_state_variables():
+                if sv not in g.nodes:
+                    bad.append(('after %r the state variable %s is not a node of the dependency graph' % (op, sv.name), {'op_index': j}))
+                    break
+        except Exception:
+            pass
+        if len(bad) < 5:
+            from props import c13
+            c13.check_state(im, bad, j, op)
         # the number-substituted graph has exactly the edges its own equations justify (a derivative is one reference:
         # its state and free variable are not referenced by it)
         try:
